@@ -20,6 +20,7 @@ fn main() {
 fn run(args: &util::Args) -> usize {
     match args.driver.as_str() {
         "registry" => drivers::registry::main(args),
+        "exec" => drivers::exec::main(args),
         "borrow" => drivers::borrow::main(args),
         "populations" => drivers::populations::main(args),
         other => {
